@@ -15,9 +15,13 @@ RULE = ("shape triples (m,n,k) are enumerated exhaustively (quick: 1..4, thoroug
         "arithmetic) and a mixed-magnitude entry family; non-conformable pairs (transposed, off by one in rows, in "
         "columns) and out-of-range indices are requested for every guarded entry point. A case is non-trivial when the "
         "model answers ok or err; it is counted once per distinct (operation, spelling, operand shapes, outcome).")
-CORR_ONLY = ["Vector::Norm / Matrix::Norm: the model gives the exact sum of squares; the square root is compared "
+CORR_ONLY = ["Matrix::Norm accumulates the squares unscaled: requests keep its entries within 1e-21..1e21 (Vector::Norm is "
+             "requested over the whole double range since fix 8a680df)",
+             "Vector::Norm / Matrix::Norm: the model gives the exact sum of squares; the square root is compared "
              "through its square (DESIGN.md C04 [T2])"]
-ASSUMPTIONS = ["subnormal family: gradual underflow (one rounding costs at most 2^-1075 absolutely); products and sums stay below 1e301",
+ASSUMPTIONS = ["bitwise clauses: IEEE-754 binary64, round to nearest even, no fused multiply-add contraction (the project's x86-64 build has "
+               "none); sums start at +0.0 and run in the loop order of the C++; the sign of a zero is not compared",
+               "subnormal family: gradual underflow (one rounding costs at most 2^-1075 absolutely); products and sums stay below 1e301",
                "IEEE-754 double arithmetic with round-to-nearest: |fl(x op y) - (x op y)| <= 2^-53 |x op y| "
                "(tolerances are the standard forward bounds (n+2)*2^-53*sum|terms| of a length-n accumulation)",
                "the mixed-magnitude family keeps |entries| within 1e-21..1e21 (no overflow, no underflow)"]
@@ -397,6 +401,40 @@ def chain_block(R, rng, thorough):
                 R.append("c04.vchain %s %s %s" % (sg, lst(x), " ".join(lst(v) for v in vs)))
 
 
+
+def wide_norm_block(R, rng, thorough):
+    """Vector::Norm over the whole double range (fix 8a680df): huge, tiny, subnormal and mixed entries whose norm is representable"""
+    def wide(kind):
+        if kind == "huge":
+            return rng.choice([-1, 1]) * rng.uniform(1, 9) * 10.0 ** rng.randint(150, 306)
+        if kind == "tiny":
+            return rng.choice([-1, 1]) * rng.uniform(1, 9) * 10.0 ** rng.randint(-306, -150)
+        if kind == "sub":
+            return rng.choice([-1, 1]) * rng.choice(SUB_SMALL)
+        return rng.choice([-1, 1]) * rng.uniform(1, 9) * 10.0 ** rng.randint(-320, 306)
+    for _ in range(400 if thorough else 100):
+        n = rng.randint(1, 8)
+        kind = rng.choice(["huge", "tiny", "sub", "any", "mixed"])
+        v = [wide(kind if kind != "mixed" else rng.choice(["huge", "tiny", "sub", "any"])) if rng.random() > 0.1 else 0.0 for _ in range(n)]
+        if kind == "huge" and rng.random() < 0.5:      # all of the same huge magnitude: the squares overflow, the norm does not
+            m_ = 10.0 ** rng.randint(155, 306)
+            v = [rng.choice([-1, 1]) * rng.uniform(1, 9) * m_ for _ in range(n)]
+        if sum(Fraction(x) ** 2 for x in v) >= Fraction(10) ** 616:   # norm itself not representable
+            continue
+        R.append("c04.vnorm " + lst(v))
+        if any(x != 0 for x in v):
+            R.append("c04.vhist %s 3 N D N" % lst(v) if max(abs(x) for x in v) < 1e150 and min(abs(x) for x in v if x) > 1e-150 else "c04.vnorm " + lst([-x for x in v]))
+
+
+def rowcol_block(R, rng, thorough):
+    """matrix-vector, vector-matrix, outer and dot products against the products of the row / column matrices (zero slack)"""
+    for _ in range(300 if thorough else 80):
+        m, n = rng.randint(1, 6), rng.randint(1, 6)
+        fam = rng.choice(["dy", "mx", "mx", "sbL", "sbR"])
+        fv = {"sbL": "sbR", "sbR": "sbL"}.get(fam, fam)
+        R.append("c04.rowcol %s %s %s" % (mat_tok(rmat(rng, m, n, fam)), lst(rvec(rng, n, fv)), lst(rvec(rng, m, fv))))
+
+
 def guard_block(R, rng, m, n, fam):
     """class A: conformable and non-conformable partners of an m x n matrix"""
     A = rmat(rng, m, n, fam); a = mat_tok(A)
@@ -502,6 +540,8 @@ def generate(tier, seed, ctx):
     struct_block(R, rng, thorough)
     subnormal_block(R, rng, thorough)
     chain_block(R, rng, thorough)
+    wide_norm_block(R, rng, thorough)
+    rowcol_block(R, rng, thorough)
     pred_block(R)
     # the shortest stale-state histories as a fixed corpus
     R.append("c04.vhist 2 0x1.8p+1 0x1p+2 3 N - 2 0x1.8p+1 0x0p+0 N")
@@ -742,6 +782,11 @@ def pyref(op, a):
         if i >= r:
             return ERR
         return UNDEF if j >= k else V([(A[i][j], 0)], 0)
+    if op == "c04.rowcol":
+        (r, k, A) = c.mat(); v = c.vec(); w = c.vec()
+        if len(v) != k or len(w) != r:
+            return ERR
+        return V([("int", 1)] * 4, 0)
     if op == "c04.laws":
         (r, k, A), (r2, k2, B) = c.mat(), c.mat()
         if k != r2:
@@ -1293,6 +1338,132 @@ def check_hist(ref, ti, slack=4):
     return None
 
 
+
+# --------------------------------------------------------------------------------------------------
+# zero-slack replay in IEEE doubles: every single operation is the correctly rounded one and every
+# accumulation runs in the order of the C++ loop (acc = 0.0; acc += a*b), so the result is determined bit for bit
+# --------------------------------------------------------------------------------------------------
+
+def dcur_vec(c):
+    n = c.int(); return [fl(c.tok()) for _ in range(n)]
+
+
+def dcur_mat(c):
+    r, k = c.int(), c.int(); return (r, k, [[fl(c.tok()) for _ in range(k)] for _ in range(r)])
+
+
+def dsum(pairs):
+    acc = 0.0
+    for x, y in pairs:
+        acc += x * y
+    return acc
+
+
+def dref(op, a):
+    """list of doubles the implementation must return bit for bit (after the integer header), or None"""
+    c = Cur(a)
+    if op in ("c04.plus", "c04.minus"):
+        c.tok(); (r, k, A), (r2, k2, B) = dcur_mat(c), dcur_mat(c)
+        if (r, k) != (r2, k2):
+            return None
+        return [A[i][j] + B[i][j] if op == "c04.plus" else A[i][j] - B[i][j] for i in range(r) for j in range(k)]
+    if op == "c04.mul":
+        c.tok(); (r, k, A), (r2, k2, B) = dcur_mat(c), dcur_mat(c)
+        if k != r2:
+            return None
+        return [dsum((A[i][t], B[t][j]) for t in range(k)) for i in range(r) for j in range(k2)]
+    if op == "c04.smul":
+        c.tok(); (r, k, A) = dcur_mat(c); s_ = fl(c.tok())
+        return [s_ * x for row in A for x in row]
+    if op == "c04.sdiv":
+        c.tok(); (r, k, A) = dcur_mat(c); s_ = fl(c.tok())
+        return None if s_ == 0 else [x / s_ for row in A for x in row]
+    if op == "c04.matvec":
+        c.tok(); (r, k, A) = dcur_mat(c); v = dcur_vec(c)
+        return None if len(v) != k else [dsum((A[i][j], v[j]) for j in range(k)) for i in range(r)]
+    if op == "c04.vecmat":
+        v = dcur_vec(c); (r, k, A) = dcur_mat(c)
+        return None if len(v) != r else [dsum((v[j], A[j][i]) for j in range(r)) for i in range(k)]
+    if op == "c04.trace":
+        (r, k, A) = dcur_mat(c)
+        if r != k:
+            return None
+        acc = 0.0
+        for i in range(r):
+            acc += A[i][i]
+        return [acc]
+    if op == "c04.outer":
+        u, v = dcur_vec(c), dcur_vec(c)
+        return [x * y for x in u for y in v]
+    if op == "c04.dot":
+        c.tok(); u, v = dcur_vec(c), dcur_vec(c)
+        return None if len(u) != len(v) else [dsum(zip(u, v))]
+    if op == "c04.cross":
+        u, v = dcur_vec(c), dcur_vec(c)
+        if len(u) != 3 or len(v) != 3:
+            return None
+        return [u[1] * v[2] - u[2] * v[1], u[2] * v[0] - u[0] * v[2], u[0] * v[1] - u[1] * v[0]]
+    if op in ("c04.vadd", "c04.vsub"):
+        c.tok(); u, v = dcur_vec(c), dcur_vec(c)
+        return None if len(u) != len(v) else [x + y if op == "c04.vadd" else x - y for x, y in zip(u, v)]
+    if op == "c04.vsmul":
+        c.tok(); u = dcur_vec(c); s_ = fl(c.tok())
+        return [x * s_ for x in u]
+    if op == "c04.vsdiv":
+        u = dcur_vec(c); s_ = fl(c.tok())
+        return None if s_ == 0 else [x / s_ for x in u]
+    if op in CHAIN_OPS:
+        sg = c.tok()
+        if op == "c04.mchain":
+            (r, k, X) = dcur_mat(c); x0 = [x for row in X for x in row]; bs = []
+            for _ in sg:
+                (r2, k2, B) = dcur_mat(c)
+                if (r2, k2) != (r, k):
+                    return None
+                bs.append([x for row in B for x in row])
+        else:
+            x0 = dcur_vec(c); bs = [dcur_vec(c) for _ in sg]
+            if any(len(b) != len(x0) for b in bs):
+                return None
+        def run(n):
+            val = list(x0)
+            for ch, b in list(zip(sg, bs))[:n]:
+                val = [v + y if ch == "+" else v - y for v, y in zip(val, b)]
+            return val
+        return ("multi", [run(len(sg)), run(1), run(1)])
+    return None
+
+
+def same_double(x, y):
+    """bit-identical, except that the sign of a zero is not part of the value"""
+    if math.isnan(x) or math.isnan(y):
+        return math.isnan(x) and math.isnan(y)
+    return x == y
+
+
+def check_bitwise(op, a, ref, ti):
+    """None when the replay does not apply or agrees; else a description"""
+    d = dref(op, a)
+    if d is None:
+        return None
+    items = ref[1]
+    if len(ti) != len(items):
+        return None      # shape mismatch is reported by check_values
+    want = []
+    if isinstance(d, tuple):
+        for part in d[1]:
+            want += part
+    else:
+        want = d
+    got = [fl(t) for t, it in zip(ti, items) if it[0] != "int"]
+    if len(got) != len(want):
+        return None
+    for idx, (g, w) in enumerate(zip(got, want)):
+        if not same_double(g, w):
+            return "entry %d is %s, the correctly rounded / sequentially accumulated value is %s" % (idx, g.hex(), w.hex())
+    return None
+
+
 LAW_NAMES = ["transpose(A*B) == transpose(B)*transpose(A)", "A*I == A", "I*A == A", "transpose(transpose(A)) == A"]
 
 CHAIN_OPS = ("c04.mchain", "c04.vchain")
@@ -1349,15 +1520,31 @@ def check_values(op, ref, ti, exact, tiny=False):
     return None
 
 
+def root_str(s):
+    """decimal rendering of sqrt(s) for messages (s may lie outside the double range)"""
+    if s == 0:
+        return "0"
+    e = 0
+    while s >= Fraction(10) ** 200:
+        s /= Fraction(10) ** 200; e += 100
+    while s < Fraction(1, 10 ** 200):
+        s *= Fraction(10) ** 200; e -= 100
+    return "%.17g x 10^%d" % (math.sqrt(float(s)), e) if e else "%.17g" % math.sqrt(float(s))
+
+
 def check_sq(ref, ti, mult=1):
+    """|Norm() - sqrt(S)| <= (n+2) eps sqrt(S)  (+ half a subnormal spacing), decided exactly on the squares"""
     _, s, n = ref
     if len(ti) != 1:
         return "one value expected"
     v = fl(ti[0])
     if math.isnan(v) or math.isinf(v) or v < 0:
-        return "norm is %r" % v
-    if not close(Fraction(v) ** 2, s, s, mult * (2 * n + 16)):
-        return "norm^2 is %r, sum of squares is %r" % (v * v, float(s))
+        return "norm is %r, the root of the sum of squares is %s" % (v, root_str(s))
+    t = mult * (n + 2) * EPS
+    lo, hi = Fraction(v) - TINY, Fraction(v) + TINY
+    # sqrt(S)(1-t) <= hi  and  lo <= sqrt(S)(1+t)
+    if hi * hi < s * (1 - t) ** 2 or (lo > 0 and lo * lo > s * (1 + t) ** 2):
+        return "norm is %r, the root of the sum of squares is %s (tolerance (n+2) eps)" % (v, root_str(s))
     return None
 
 
@@ -1366,7 +1553,7 @@ def model_items(op, tm):
     h = INT_HEADER.get(op, 0)
     if op in CHAIN_OPS:
         return None
-    if op in ("c04.preds", "c04.veq", "c04.meq", "c04.laws"):
+    if op in ("c04.preds", "c04.veq", "c04.meq", "c04.laws", "c04.rowcol"):
         return [("int", int(t)) for t in tm]
     return [("int", int(t)) for t in tm[:h]] + [(fr(t), None) for t in tm[h:]]
 
@@ -1449,6 +1636,12 @@ def oracle(op, a, impl, ref):
     if ref[0] == "sq":
         d = check_sq(ref, ti)
         return ("Norm is not the root of the sum of squares", d) if d else None
+    if op == "c04.rowcol":
+        names = ["A*v == A*column(v)", "w*A == row(w)*A", "Outer(w,v) == column(w)*row(v)", "v.v == row(v)*column(v)"]
+        bad = [names[i] for i, t in enumerate(ti) if t != "1"]
+        if len(ti) != 4 or bad:
+            return ("product does not coincide with the product of the row/column matrices: " + "; ".join(bad), "")
+        return None
     if op == "c04.laws":
         bad = [LAW_NAMES[i] for i, t in enumerate(ti) if t != "1"]
         if len(ti) != 4 or bad:
@@ -1459,6 +1652,9 @@ def oracle(op, a, impl, ref):
         if op in CHAIN_OPS:
             return ("chained compound assignment does not leave the sequential result in the object", d)
         return ("result differs from the definition", d)
+    d = check_bitwise(op, a, ref, ti)
+    if d:
+        return ("result is not the correctly rounded value of the definition (sums accumulated in loop order)", d)
     return None
 
 
